@@ -431,6 +431,43 @@ def applyOp (env : Env) (h : HSt) : Op → HSt
 def runHistory (env : Env) (seed : List Comp) (ops : List Op) : HSt :=
   ops.foldl (applyOp env) ⟨St.init seed, []⟩
 
+/-! ### configuration glue: `insights.apply_default_enabled(config)` followed by `insights.apply_configs(config)`
+
+`apply_default_enabled` sets every known ENABLED entry to `default_component_enabled` (and makes it the default of
+components defined later).  `apply_configs` walks the LOADED components sorted by name for each entry of
+`configs`: a component whose name starts with the entry's name gets `enabled` (default: the default), `tags`,
+`links`; the walk of an entry stops after a component whose name IS the entry's name. -/
+
+structure ConfEntry where
+  name : Str
+  exactLoaded : Bool                          -- a loaded component is called exactly `name` (the walk stops there)
+  enabled : Option Bool                       -- `comp_cfg.get("enabled", default_enabled)`
+  tags : Option (List Str)                    -- `comp_cfg.get("tags", delegate.tags)`
+  links : Option (List (Str × List Str))      -- `comp_cfg.get("links", delegate.links)`
+deriving Repr
+
+structure Config where
+  defaultEnabled : Bool
+  entries : List ConfEntry
+deriving Repr
+
+/-- the entry is applied to the component called `cname` -/
+def entryMatches (e : ConfEntry) (cname : Str) : Bool :=
+  cname == e.name || (e.name.isPrefixOf cname && !e.exactLoaded)
+
+def applyEntry (dflt : Bool) (r : Rule) (e : ConfEntry) : Rule :=
+  if entryMatches e r.name then
+    { r with enabled := e.enabled.getD dflt, tags := e.tags.getD r.tags,
+             links := match e.links with | some l => some l | none => r.links }
+  else r
+
+/-- one `apply_default_enabled(c); apply_configs(c)` on a rule that is loaded -/
+def applyConfig (c : Config) (r : Rule) : Rule :=
+  c.entries.foldl (applyEntry c.defaultEnabled) { r with enabled := c.defaultEnabled }
+
+/-- the configurations applied after the rule was defined (and after any `dr.set_enabled` on it), in order -/
+def configure (cs : List Config) (r : Rule) : Rule := cs.foldl (fun r c => applyConfig c r) r
+
 /-! ### InsightsEvaluator: the observer decorates AFTER it has handled the outcome
 
 `InsightsEvaluator.observer` first calls `super().observer(comp, broker)` and then reads Specs.machine_id /
